@@ -26,7 +26,9 @@ def records(ctx):
         fs = rand_spectrum(rng, sh, folded=folded, labels=rand_labels(rng, ndim), mask_mode=rng.choice(['none', 'corners']))
         P = ndim
         over = sorted(rng.sample(range(P), rng.randint(1, P - 1)))
-        add('marginalize', {'s': enc(fs), 'over': [a + 1 for a in over]}, observe(lambda: fs.marginalize(over)), 'Spectrum.marginalize')
+        over_arg = list(over)
+        rng.shuffle(over_arg)            # the axes may be given in any order
+        add('marginalize', {'s': enc(fs), 'over': [a + 1 for a in over_arg]}, observe(lambda: fs.marginalize(tuple(over_arg))), 'Spectrum.marginalize')
         keep = sorted(rng.sample(range(1, P + 1), rng.randint(1, P - 1)))
         rng.shuffle(keep)
         add('filter', {'s': enc(fs), 'keep': keep}, observe(lambda: fs.filter_pops(list(keep))), 'Spectrum.filter_pops')
@@ -65,6 +67,10 @@ def records(ctx):
                 pair_obs(lambda: fs.fold().marginalize(over), lambda: fs.marginalize(over).fold()), 'Spectrum.marginalize')
             add('same_as', {'law': 'CombineCommutesFold', 's': enc(fs), 'a': a, 'b': b},
                 pair_obs(lambda: fs.fold().combine_two_pops([a, b]), lambda: fs.combine_two_pops([a, b]).fold()), 'Spectrum.combine_two_pops')
+    # pooled sample sizes beyond 1030 chromosomes (binomial coefficients beyond the range of a double)
+    for sh in ([5, 1061],) if ctx.quick else ([5, 1061], [3, 1201], [4, 3, 1100]):
+        fs = rand_spectrum(rng, sh, folded=False, labels=rand_labels(rng, len(sh)), mask_mode='none', integer=True)
+        add('scramble', {'s': enc(fs)}, observe(lambda: fs.scramble_pop_ids(mask_corners=False)), 'Spectrum.scramble_pop_ids')
     return recs
 
 
